@@ -234,8 +234,20 @@ def rule_norms(rep, pdb):
     if fn is not None:
         ctx = Ctx.for_fn(pdb, fn)
         maxs = [e for e in effects(pdb, ctx) if e.kind == "assign" and len(e.loops) == 2]
+        flat = [e for e in effects(pdb, ctx) if e.kind == "assign" and len(e.loops) == 1]
         ok, det = len(maxs) == 1, ""
-        if ok:
+        if not maxs and len(flat) == 1:
+            # one pass over the flat storage: every stored entry exactly once (the storage holds exactly the rows*cols entries)
+            m = flat[0]
+            r = raw_for_range(ctx, m.loops[0])
+            v = m.value
+            MAT = F(P(0), "mat")
+            ok = r is not None and r[1] == num(0) and r[2] == LEN(MAT) and not r[3] and not early_exits(m.loops[0]) and \
+                v[0] == "call" and str(v[1]).endswith("::max") and v[2] == m.target and v[3][0] == "call" and str(v[3][1]).endswith("::abs") and v[3][2] == ("idx", MAT, r[0])
+            det = "single pass over self.mat: %s" % ok
+            b = ctx.binds.get(m.target[1]) if m.target[0] == "var" else None
+            ok = ok and b is not None and b.init is not None and ctx.term(b.init) == num(0)
+        elif ok:
             m = maxs[0]
             mv = m.value
             ok = mv[0] == "call" and str(mv[1]).endswith("::max") and m.target in mv[2:]
